@@ -546,6 +546,9 @@ def sc_eq(a, b):
     """equality of two scalars (python or symbolic) as S bool"""
     if isinstance(a, (C, complex)) or isinstance(b, (C, complex)):
         return C.lift(a) == C.lift(b)
+    for u, v in ((a, b), (b, a)):
+        if isinstance(u, float) and (u != u or u in (float('inf'), float('-inf'))) and isinstance(v, S):
+            return sbool(False)          # a symbolic scalar stands for a finite real (A1): never equal to inf / nan
     return S.lift(a) == S.lift(b)
 
 
